@@ -41,6 +41,7 @@ type Contract struct {
 	Inline   bool // callers inline the body instead of using the contract
 	NoFrame  bool
 	Unshared bool
+	Getter   bool // pure getter: the result is a function of the receiver (and its ghost version)
 }
 
 type SpecFn struct {
@@ -185,6 +186,8 @@ func (cs *ContractSet) loadContractFile(path string, pkgPath string) error {
 					c.NoFrame = true
 				case "unshared":
 					c.Unshared = true
+				case "getter":
+					c.Getter = true
 				case "select", "loop":
 					// fragment selector: select N case K | loop N body
 					if j+3 < len(rest)+0 && (rest[j+2] == "case") {
